@@ -56,12 +56,84 @@ def deliverV (cfg : FCfg) (eqv : Eqv Msg) (subs : List Sub) (evs : List (VEvent 
   let rs := subs.map stepSub
   (" ".intercalate (rs.map (·.1)), rs.map (·.2))
 
+/-- `racea` / `raceb`: a subscriber opens while write `w` is in flight.
+`racea`: the subscriber is held between its snapshot and its bus registration while the write runs;
+a write that commits cannot proceed (the subscriber holds the read lock), so the subscribe step comes
+first (`blocked=true`); a write that does not commit, or an updates-only subscriber (takes no lock and
+registers only when released), lets the write finish first.
+`raceb`: the write is held between commit and publication (Update/Add/Set have such a point) while
+the subscriber opens: the seed has the write, its event arrives afterwards (`parked=true`). -/
+def raceKeys : List String := ["w", "sname", "srm", "suo"]
+
+def raceSubOpts? (kv : KV) : Option (SubOpts Mask) := do
+  let rm ← optKey kv "srm" parseMask?
+  pure { readMask := rm, updatesOnly := kvHas kv "suo" }
+
+def handleRace (st : DrvState) (isA : Bool) (kv : KV) : Option (DrvState × String) := do
+  let w ← kvGet kv "w"
+  let name ← kvGet kv "sname"
+  let so ← raceSubOpts? kv
+  let kvW := kv.filter (fun p => !(raceKeys.contains p.1))
+  let wr ← parseWriteReq? kvW
+  let flagName := if isA then "blocked" else "parked"
+  match st.res with
+  | .coll cfg s =>
+    let id ← kvGet kv "id"
+    let r ← (match w with
+      | "upd" => (kvGet kv "msg").bind parseMsg? |>.map (fun m => Coll.update cfg s id m wr)
+      | "add" => (kvGet kv "msg").bind parseMsg? |>.map (fun m => Coll.add cfg s id m wr)
+      | "del" => some (Coll.delete cfg s id wr)
+      | _ => none)
+    let (o, s') := r
+    let commits := !o.events.isEmpty
+    let subFirst := if isA then commits && !so.updatesOnly else false
+    let subBetween := if isA then false else commits && (w == "upd" || w == "add")
+    let newSub : Sub := { name := name, opts := so, last := none }
+    let head := s!"val={showOptMsg o.val} err={showErr o.err} | "
+    if subFirst then
+      pure ({ st with res := .coll cfg s', subs := st.subs ++ [newSub] },
+            s!"{flagName}=true seed={showList ((collSeed cfg s so).map showCEvent)} " ++ head ++
+            deliverC cfg st.eqv (st.subs ++ [newSub]) o.events)
+    else if subBetween then
+      pure ({ st with res := .coll cfg s', subs := st.subs ++ [newSub] },
+            s!"{flagName}=true seed={showList ((collSeed cfg s' so).map showCEvent)} " ++ head ++
+            deliverC cfg st.eqv (st.subs ++ [newSub]) o.events)
+    else
+      let old := deliverC cfg st.eqv st.subs o.events
+      pure ({ st with res := .coll cfg s', subs := st.subs ++ [newSub] },
+            s!"{flagName}=false seed={showList ((collSeed cfg s' so).map showCEvent)} " ++ head ++
+            (if st.subs.isEmpty then "" else old ++ " ") ++ s!"{name}=[]")
+  | .val cfg s =>
+    if w != "vset" then none
+    let m ← (kvGet kv "msg").bind parseMsg?
+    let (o, s') := Value.set cfg s m wr
+    let commits := !o.events.isEmpty
+    let subFirst := if isA then commits && !so.updatesOnly else false
+    let subBetween := if isA then false else commits
+    let head := s!"val={showOptMsg o.val} err={showErr o.err} | "
+    if subFirst || subBetween then
+      let sd := valSeed cfg (if subFirst then s else s') so
+      let newSub : Sub := { name := name, opts := so, last := sd.2 }
+      let (ans, subs') := deliverV cfg st.eqv (st.subs ++ [newSub]) o.events
+      pure ({ st with res := .val cfg s', subs := subs' },
+            s!"{flagName}=true seed={showList (sd.1.map showVDeliv)} " ++ head ++ ans)
+    else
+      let (old, subs') := deliverV cfg st.eqv st.subs o.events
+      let sd := valSeed cfg s' so
+      let newSub : Sub := { name := name, opts := so, last := sd.2 }
+      pure ({ st with res := .val cfg s', subs := subs' ++ [newSub] },
+            s!"{flagName}=false seed={showList (sd.1.map showVDeliv)} " ++ head ++
+            (if st.subs.isEmpty then "" else old ++ " ") ++ s!"{name}=[]")
+  | .none => none
+
 def handleOpt (st : DrvState) (toks : List String) : Option (DrvState × String) :=
   match toks with
   | [] => none
   | op :: rest => do
     let kv ← parseKV rest
     match op, st.res with
+    | "racea", _ => handleRace st true kv
+    | "raceb", _ => handleRace st false kv
     | "newc", _ =>
       let cfg ← parseCfg? kv
       let rng ← parseRng? ((kvGet kv "rng").getD "")
